@@ -2,6 +2,7 @@
 //! One request per line: `<op>\t<hexfield>...`; one response line per request.
 mod util;
 mod ops_basic;
+mod ops_cache;
 
 use std::io::{BufRead, Write};
 
@@ -24,6 +25,7 @@ fn serve() {
     let stdout = std::io::stdout();
     let mut out = std::io::BufWriter::new(stdout.lock());
     let mut st = ops_basic::State::default();
+    let mut cst = ops_cache::CacheState::default();
     for line in stdin.lock().lines() {
         let line = line.expect("stdin");
         if line.is_empty() {
@@ -33,6 +35,9 @@ fn serve() {
         let op = it.next().unwrap().to_string();
         let fields: Vec<String> = it.map(util::unhex).collect();
         let res = std::panic::catch_unwind(std::panic::AssertUnwindSafe(|| {
+            if let Some(r) = ops_cache::dispatch(&mut cst, &op, &fields) {
+                return r;
+            }
             ops_basic::dispatch(&mut st, &op, &fields)
         }));
         match res {
